@@ -43,8 +43,8 @@ type Case struct {
 
 type model struct {
 	quiet map[uint32]bool
-	urr map[uint32]bool
-	pdr map[uint32]map[uint32]bool
+	urr   map[uint32]bool
+	pdr   map[uint32]map[uint32]bool
 	// via[pdr][urr] = "create" | "update": how the association came about
 	via        map[uint32]map[uint32]string
 	sharedOnce map[uint32]bool
@@ -394,6 +394,7 @@ func show(m map[uint32]int) string {
 }
 
 func run(c Case) (v *vcore.Violation, stt stats) {
+	vcore.Journal(c)
 	d := stack.NewModelDriver()
 	quiet := map[uint32]bool{}
 	for _, q := range c.Quiet {
